@@ -4,7 +4,11 @@
     [Print Assumptions].  The model is coq/label/Iso.v (src/mxlpy/label_map.py statement by statement);
     [gen_label_facts] is REGENERATED from /repo on every run and [C05_facts_pinned] is the obligation
     that breaks when the reading direction of the map, the external-label character, the short-map
-    test, the dict-based argument renaming or the shape of any helper / of build_model is edited.
+    test, the form of the rate-argument renaming block or the shape of any helper / of build_model is edited.
+    The renaming block has two recognised forms ([repl_kind], Iso.v): ReplDict (the tree: one dict keyed by
+    compound) and ReplPositional (after fixes/C05-homodimer.diff: per occurrence, labelled bystanders through
+    their total); coq/label/ExpectedFacts.v says which one the tree is expected to have, the structural
+    theorems hold for BOTH (forall rk), the dynamics theorems are stated for each form explicitly.
     Statements that mention [ext_bit_of gen_label_facts] type-check only while the regenerated
     external-label character is "1".
 
@@ -12,12 +16,12 @@
     (IsoProofs.dynamics_collapse_rxn, used again by C16); they are stated here over Z. *)
 From Coq Require Import List ZArith NArith Bool Arith Permutation.
 From MxlBase Require Import ListX.
-From Label Require Import LModel Iso Linear GenLabelFacts Algebra IsoProofs IsoInitProofs IsoPropsZ IsoWhole.
+From Label Require Import LModel Iso Linear GenLabelFacts ExpectedFacts Algebra IsoProofs IsoInitProofs IsoPropsZ IsoWhole.
 Import ListNotations.
 
 Theorem C05_facts_pinned :
   f_iso_dir gen_label_facts = IsoDocumented /\ f_ext_bit gen_label_facts = Some true /\
-  f_short gen_label_facts = ShortLt0 /\ f_repl gen_label_facts = ReplDict /\ f_iso_helpers gen_label_facts = true /\
+  f_short gen_label_facts = ShortLt0 /\ f_repl gen_label_facts = C05_expected_repl /\ f_iso_helpers gen_label_facts = true /\
   f_init_name gen_label_facts = InitIsoName.
 Proof. vm_compute. repeat split. Qed.
 Print Assumptions C05_facts_pinned.
@@ -31,8 +35,8 @@ Print Assumptions C05_patterns_enumerated.
 (** exactly one isotopomer reaction per labelling pattern of the substrates: the generated names are
     rate__<pattern><external 1s> for every pattern, pairwise distinct, 2^(sum of substrate labels) many *)
 Theorem C05_one_reaction_per_pattern :
-  forall (lv : label_vars) (r : brxn) (lmap : list Z) (rxns : list lrxn),
-    create_iso_rxns (ext_bit_of gen_label_facts) lv r lmap = Ok rxns ->
+  forall (rk : repl_kind) (lv : label_vars) (r : brxn) (lmap : list Z) (rxns : list lrxn),
+    create_iso_rxns (ext_bit_of gen_label_facts) rk lv r lmap = Ok rxns ->
     map lr_name rxns
     = map (fun p => LIso (r_name r)
                       (p ++ repeat true (total (labels_per lv (prods_of (r_stoich r)))
@@ -47,9 +51,9 @@ Print Assumptions C05_one_reaction_per_pattern.
     stoichiometric key is an isotopomer (right number of positions) of a compound of the base reaction
     and, per compound, the coefficients over all its isotopomers sum to the base coefficient *)
 Theorem C05_collapse_stoichiometry :
-  forall (lv : label_vars) (r : brxn) (lmap : list Z) (rxns : list lrxn) (rx : lrxn),
+  forall (rk : repl_kind) (lv : label_vars) (r : brxn) (lmap : list Z) (rxns : list lrxn) (rx : lrxn),
     NoDup (map fst (r_stoich r)) ->
-    create_iso_rxns (ext_bit_of gen_label_facts) lv r lmap = Ok rxns ->
+    create_iso_rxns (ext_bit_of gen_label_facts) rk lv r lmap = Ok rxns ->
     total (labels_per lv (prods_of (r_stoich r))) <= length lmap ->
     In rx rxns ->
     (forall Y co, In (Y, co) (lr_stoich rx) ->
@@ -65,11 +69,11 @@ Print Assumptions C05_collapse_stoichiometry.
     [mk_iso_rxn .. (p ++ 1..1) psuffix] where psuffix[i] = (p ++ 1..1)[map[i]] (Python indexing), the
     substrates consume exactly p and the products read psuffix from position 0 *)
 Theorem C05_positions :
-  forall (lv : label_vars) (r : brxn) (lmap : list Z) (rxns : list lrxn) (p : list bool),
-    create_iso_rxns (ext_bit_of gen_label_facts) lv r lmap = Ok rxns ->
+  forall (rk : repl_kind) (lv : label_vars) (r : brxn) (lmap : list Z) (rxns : list lrxn) (p : list bool),
+    create_iso_rxns (ext_bit_of gen_label_facts) rk lv r lmap = Ok rxns ->
     In p (all_patterns (total (labels_per lv (subs_of (r_stoich r))))) ->
     exists psuffix,
-      In (mk_iso_rxn lv r (p ++ repeat true (total (labels_per lv (prods_of (r_stoich r)))
+      In (mk_iso_rxn rk lv r (p ++ repeat true (total (labels_per lv (prods_of (r_stoich r)))
                                              - total (labels_per lv (subs_of (r_stoich r))))) psuffix) rxns
       /\ length psuffix = length lmap
       /\ (forall i m, nth_error lmap i = Some m ->
@@ -96,15 +100,15 @@ Print Assumptions C05_index_reads.
 
 (** a map shorter than the substrates' atoms is rejected -- by the reaction builder and by build_model *)
 Theorem C05_short_map_rejected :
-  forall (lv : label_vars) (lmaps : label_maps) (init : init_labels) (bm : bmodel) (r : brxn) (lmap : list Z),
+  forall (rk : repl_kind) (lv : label_vars) (lmaps : label_maps) (init : init_labels) (bm : bmodel) (r : brxn) (lmap : list Z),
     length lmap < total (labels_per lv (subs_of (r_stoich r))) ->
-    create_iso_rxns (ext_bit_of gen_label_facts) lv r lmap = Err ErrValue
+    create_iso_rxns (ext_bit_of gen_label_facts) rk lv r lmap = Err ErrValue
     /\ (In r (b_rxns bm) -> getN (r_name r) lmaps = Some lmap ->
-        exists e, build_iso (ext_bit_of gen_label_facts) (f_init_name gen_label_facts) lv lmaps init bm = Err e).
+        exists e, build_iso (ext_bit_of gen_label_facts) rk (f_init_name gen_label_facts) lv lmaps init bm = Err e).
 Proof.
-  exact (fun lv lmaps init bm r lmap H =>
-           conj (short_map_rejected true lv r lmap H)
-                (fun Hin Hm => build_short_map_rejected true InitIsoName lv lmaps init bm r lmap Hin Hm H)).
+  exact (fun rk lv lmaps init bm r lmap H =>
+           conj (short_map_rejected true rk lv r lmap H)
+                (fun Hin Hm => build_short_map_rejected true rk InitIsoName lv lmaps init bm r lmap Hin Hm H)).
 Qed.
 Print Assumptions C05_short_map_rejected.
 
@@ -162,11 +166,51 @@ Theorem C05_zero_label_initial_prefix_refuted :
 Proof. exact zero_label_initial_refuted. Qed.
 Print Assumptions C05_zero_label_initial_prefix_refuted.
 
-(** dynamics: for a mapped mass-action reaction (rate = product of its arguments: every substrate
-    compound once, the remaining arguments unlabelled constants) the derivatives of the isotopomers of
-    any compound c sum to (base coefficient of c) * (base rate at the isotopomer totals), at EVERY state.
-    FULL statement (no DistinctSubstrates): false of the code, see C05_homodimer_refuted.
-    Guard: NoDup (subs_of (r_stoich r)) -- no compound twice on the substrate side. *)
+(** dynamics, FULL statement, for the per-occurrence form of the renaming block (ReplPositional: the tree after
+    fixes/C05-homodimer.diff): for a mapped mass-action reaction (rate = product of its arguments: every unit of the
+    substrate side once, in any order, plus arguments that take no part in the reaction -- rate constants, and
+    modifiers which may be LABELLED: they are read through their [__total], which the state evaluates to the sum of
+    their isotopomers) the derivatives of the isotopomers of any compound c sum to
+    (base coefficient of c) * (base rate at the isotopomer totals), at EVERY state.  No guard on repeated substrates
+    (2A -> B is inside, see C05_homodimer_repaired). *)
+Theorem C05_dynamics_collapse :
+  forall (lv : label_vars) (r : brxn) (lmap : list Z) (env : lname -> Z) (extra : list N) (c : N) (rxns : list lrxn),
+    r_fn r = FProd ->
+    Permutation (r_args r) (subs_of (r_stoich r) ++ extra) ->
+    NoDup (map fst (r_stoich r)) ->
+    (forall a, In a extra -> ~ In a (subs_of (r_stoich r)) /\ ~ In a (prods_of (r_stoich r))
+                             /\ env (bystander_name lv a) = totalZ lv env a) ->
+    create_iso_rxns (ext_bit_of gen_label_facts) ReplPositional lv r lmap = Ok rxns ->
+    total (labels_per lv (prods_of (r_stoich r))) <= length lmap ->
+    sumZ (map (fun bits => derivZ env rxns (iso_name c bits)) (all_patterns (nlab lv c)))
+    = ((match getN c (r_stoich r) with Some v => v | None => 0 end)
+       * prodZ (map (totalZ lv env) (r_args r)))%Z.
+Proof. exact dynamics_collapse_rxn_pos_Z. Qed.
+Print Assumptions C05_dynamics_collapse.
+
+(** the same for the whole generated network (per-occurrence form): over ALL mapped mass-action reactions together
+    the summed derivatives of c's isotopomers equal the base model's derivative of c (sum over the reactions of
+    coefficient * rate, the sum Model._get_right_hand_side computes) evaluated at the isotopomer totals *)
+Theorem C05_dynamics_collapse_model :
+  forall (lv : label_vars) (rms : list (brxn * list Z)) (env : lname -> Z) (irs : list (list lrxn)) (c : N),
+    Forall (fun rm =>
+              let r := fst rm in
+              let bs := subs_of (r_stoich r) in let bp := prods_of (r_stoich r) in
+              exists extra : list N,
+                r_fn r = FProd /\ Permutation (r_args r) (bs ++ extra) /\ NoDup (map fst (r_stoich r)) /\
+                (forall a, In a extra -> ~ In a bs /\ ~ In a bp /\ env (bystander_name lv a) = totalZ lv env a) /\
+                total (labels_per lv bp) <= length (snd rm)) rms ->
+    collect (map (fun rm => create_iso_rxns (ext_bit_of gen_label_facts) ReplPositional lv (fst rm) (snd rm)) rms) = Ok irs ->
+    sumZ (map (fun bits => derivZ env (concat irs) (iso_name c bits)) (all_patterns (nlab lv c)))
+    = sumZ (map (fun rm => ((match getN c (r_stoich (fst rm)) with Some v => v | None => 0 end)
+                            * prodZ (map (totalZ lv env) (r_args (fst rm))))%Z) rms).
+Proof. exact dynamics_collapse_model_pos_Z. Qed.
+Print Assumptions C05_dynamics_collapse_model.
+
+(** dynamics for the DICT form of the renaming block (ReplDict: the tree before fixes/C05-homodimer.diff).
+    The full statement above is false of that form, see C05_homodimer_refuted / C05_labelled_modifier_refuted.
+    Guards: NoDup (subs_of (r_stoich r)) -- no compound twice on the substrate side -- and the arguments that take
+    no part in the reaction are unlabelled. *)
 Theorem C05_dynamics_collapse_partial :
   forall (lv : label_vars) (r : brxn) (lmap : list Z) (env : lname -> Z) (extra : list N) (c : N) (rxns : list lrxn),
     r_fn r = FProd ->
@@ -174,7 +218,7 @@ Theorem C05_dynamics_collapse_partial :
     NoDup (map fst (r_stoich r)) ->
     NoDup (subs_of (r_stoich r)) ->
     (forall a, In a extra -> ~ In a (subs_of (r_stoich r)) /\ ~ In a (prods_of (r_stoich r)) /\ nlab lv a = 0) ->
-    create_iso_rxns (ext_bit_of gen_label_facts) lv r lmap = Ok rxns ->
+    create_iso_rxns (ext_bit_of gen_label_facts) ReplDict lv r lmap = Ok rxns ->
     total (labels_per lv (prods_of (r_stoich r))) <= length lmap ->
     sumZ (map (fun bits => derivZ env rxns (iso_name c bits)) (all_patterns (nlab lv c)))
     = ((match getN c (r_stoich r) with Some v => v | None => 0 end)
@@ -182,10 +226,6 @@ Theorem C05_dynamics_collapse_partial :
 Proof. exact dynamics_collapse_rxn_Z. Qed.
 Print Assumptions C05_dynamics_collapse_partial.
 
-(** the same for the whole generated network: over ALL mapped mass-action reactions together the summed
-    derivatives of c's isotopomers equal the base model's derivative of c (sum over the reactions of
-    coefficient * rate, the sum Model._get_right_hand_side computes) evaluated at the isotopomer totals,
-    at EVERY state.  Same guard per reaction. *)
 Theorem C05_dynamics_collapse_model_partial :
   forall (lv : label_vars) (rms : list (brxn * list Z)) (env : lname -> Z) (irs : list (list lrxn)) (c : N),
     Forall (fun rm =>
@@ -195,25 +235,100 @@ Theorem C05_dynamics_collapse_model_partial :
                 r_fn r = FProd /\ Permutation (r_args r) (bs ++ extra) /\ NoDup (map fst (r_stoich r)) /\ NoDup bs /\
                 (forall a, In a extra -> ~ In a bs /\ ~ In a bp /\ nlab lv a = O) /\
                 total (labels_per lv bp) <= length (snd rm)) rms ->
-    collect (map (fun rm => create_iso_rxns (ext_bit_of gen_label_facts) lv (fst rm) (snd rm)) rms) = Ok irs ->
+    collect (map (fun rm => create_iso_rxns (ext_bit_of gen_label_facts) ReplDict lv (fst rm) (snd rm)) rms) = Ok irs ->
     sumZ (map (fun bits => derivZ env (concat irs) (iso_name c bits)) (all_patterns (nlab lv c)))
     = sumZ (map (fun rm => ((match getN c (r_stoich (fst rm)) with Some v => v | None => 0 end)
                             * prodZ (map (totalZ lv env) (r_args (fst rm))))%Z) rms).
 Proof. exact dynamics_collapse_model_Z. Qed.
 Print Assumptions C05_dynamics_collapse_model_partial.
 
+(** dict form, 2A -> B with k*A*A: both occurrences of A are renamed to the LAST isotopomer; -40 vs -32 *)
 Theorem C05_homodimer_refuted :
   exists (lv : label_vars) (r : brxn) (lmap : list Z) (env : lname -> Z) (extra : list N) (c : N) (rxns : list lrxn),
     r_fn r = FProd /\
     Permutation (r_args r) (subs_of (r_stoich r) ++ extra) /\
     NoDup (map fst (r_stoich r)) /\
     (forall a, In a extra -> ~ In a (subs_of (r_stoich r)) /\ ~ In a (prods_of (r_stoich r)) /\ nlab lv a = 0) /\
-    create_iso_rxns true lv r lmap = Ok rxns /\
+    create_iso_rxns true ReplDict lv r lmap = Ok rxns /\
     total (labels_per lv (prods_of (r_stoich r))) <= length lmap /\
     sumZ (map (fun bits => derivZ env rxns (iso_name c bits)) (all_patterns (nlab lv c))) = (-40)%Z /\
     ((match getN c (r_stoich r) with Some v => v | None => 0 end) * prodZ (map (totalZ lv env) (r_args r)))%Z = (-32)%Z.
 Proof. exact homodimer_refuted. Qed.
 Print Assumptions C05_homodimer_refuted.
+
+(** per-occurrence form, the same input: the four reactions read (A__0,A__0) (A__0,A__1) (A__1,A__0) (A__1,A__1),
+    both sides are -32; all hypotheses of C05_dynamics_collapse hold although A stands twice on the substrate side *)
+Theorem C05_homodimer_repaired :
+  exists rxns : list lrxn,
+    r_fn hd_rxn = FProd /\
+    Permutation (r_args hd_rxn) (subs_of (r_stoich hd_rxn) ++ [20%N]) /\
+    NoDup (map fst (r_stoich hd_rxn)) /\
+    ~ NoDup (subs_of (r_stoich hd_rxn)) /\
+    (forall a, In a [20%N] -> ~ In a (subs_of (r_stoich hd_rxn)) /\ ~ In a (prods_of (r_stoich hd_rxn))
+                              /\ hd_env (bystander_name hd_lv a) = totalZ hd_lv hd_env a) /\
+    create_iso_rxns true ReplPositional hd_lv hd_rxn [0%Z; 1%Z] = Ok rxns /\
+    map lr_args rxns = [[LIso 1%N [false]; LIso 1%N [false]; LPlain 20%N]; [LIso 1%N [false]; LIso 1%N [true]; LPlain 20%N];
+                        [LIso 1%N [true]; LIso 1%N [false]; LPlain 20%N]; [LIso 1%N [true]; LIso 1%N [true]; LPlain 20%N]] /\
+    sumZ (map (fun bits => derivZ hd_env rxns (iso_name 1%N bits)) (all_patterns (nlab hd_lv 1%N))) = (-32)%Z /\
+    ((match getN 1%N (r_stoich hd_rxn) with Some v => v | None => 0 end) * prodZ (map (totalZ hd_lv hd_env) (r_args hd_rxn)))%Z = (-32)%Z.
+Proof. exact homodimer_repaired. Qed.
+Print Assumptions C05_homodimer_repaired.
+
+(** dict form, A(1) -> B(1) with rate k*A*M, M labelled and not part of the reaction: the generated reactions read the
+    base name M, which the generated model does not define -- the right-hand side cannot be evaluated at any state *)
+Theorem C05_labelled_modifier_refuted :
+  r_fn md_rxn = FProd /\
+  Permutation (r_args md_rxn) (subs_of (r_stoich md_rxn) ++ [3%N; 20%N]) /\
+  (forall a, In a [3%N; 20%N] -> ~ In a (subs_of (r_stoich md_rxn)) /\ ~ In a (prods_of (r_stoich md_rxn))) /\
+  exists m rx, build_iso true ReplDict InitIsoName md_lv [(40%N, [0%Z])] [] md_base = Ok m /\
+               In rx (lm_rxns m) /\ In (LPlain 3%N) (lr_args rx) /\ ~ In (LPlain 3%N) (defined_names m) /\
+               all_args_defined m = false.
+Proof. exact labelled_modifier_refuted. Qed.
+Print Assumptions C05_labelled_modifier_refuted.
+
+(** per-occurrence form, the same input: M__total is read, every argument of every reaction is defined *)
+Theorem C05_labelled_modifier_repaired :
+  exists m, build_iso true ReplPositional InitIsoName md_lv [(40%N, [0%Z])] [] md_base = Ok m /\
+            map lr_args (lm_rxns m) = [[LIso 1%N [false]; LTotal 3%N; LPlain 20%N]; [LIso 1%N [true]; LTotal 3%N; LPlain 20%N]] /\
+            all_args_defined m = true.
+Proof. exact labelled_modifier_repaired. Qed.
+Print Assumptions C05_labelled_modifier_repaired.
+
+(** reversible mass action written as one reaction (rate kf*S.. - kr*P.., the product is a rate argument).
+    FULL statement wanted (NOT proved in general; validated on every run by the oracle and the correspondence on
+    random reversible networks with equally many positions on both sides and permutation maps):
+      forall lv r mun env c rxns m sargs pargs kf kr,
+        r_fn r = FRev m -> r_args r = sargs ++ pargs ++ [kf; kr] -> length sargs = m ->
+        Permutation sargs (subs_of (r_stoich r)) -> Permutation pargs (prods_of (r_stoich r)) ->
+        (kf, kr unlabelled constants) -> NoDup (map fst (r_stoich r)) ->
+        total (labels_per lv (subs_of ..)) = total (labels_per lv (prods_of ..)) = n -> Permutation mun (seq 0 n) ->
+        create_iso_rxns true rk lv r (map Z.of_nat mun) = Ok rxns ->
+        sum over c's isotopomers of derivZ env rxns = coefficient * (kf * prod totals(sargs) - kr * prod totals(pargs)).
+    Without `equally many positions` / `permutation` the statement is FALSE of the code (either form of the renaming
+    block): recorded finding c05-reversible-unbalanced, witness below.  Proved: the witness, and the statement for the
+    reaction A(2) <-> B(2) with the swap map at every state. *)
+Theorem C05_reversible_unbalanced_refuted :
+  forall rk : repl_kind,
+  exists rxns : list lrxn,
+    create_iso_rxns true rk rv_lv rv_rxn [0%Z; 1%Z] = Ok rxns /\
+    map lr_args rxns = [[LIso 1%N [false]; LIso 2%N [false; true]; LPlain 20%N; LPlain 21%N];
+                        [LIso 1%N [true]; LIso 2%N [true; true]; LPlain 20%N; LPlain 21%N]] /\
+    sumZ (map (fun bits => derivZ rv_env rxns (iso_name 1%N bits)) (all_patterns (nlab rv_lv 1%N))) = (-2)%Z /\
+    ((match getN 1%N (r_stoich rv_rxn) with Some v => v | None => 0 end)
+     * fsemZ (r_fn rv_rxn) (map (totalZ rv_lv rv_env) (r_args rv_rxn)))%Z = (-1)%Z.
+Proof. exact reversible_unbalanced_refuted. Qed.
+Print Assumptions C05_reversible_unbalanced_refuted.
+
+Theorem C05_reversible_swap_collapse_partial :
+  forall (rk : repl_kind) (env : lname -> Z),
+  exists rxns : list lrxn,
+    create_iso_rxns true rk rb_lv rb_rxn [1%Z; 0%Z] = Ok rxns /\
+    forall c, c = 1%N \/ c = 2%N ->
+    sumZ (map (fun bits => derivZ env rxns (iso_name c bits)) (all_patterns (nlab rb_lv c)))
+    = ((match getN c (r_stoich rb_rxn) with Some v => v | None => 0 end)
+       * fsemZ (r_fn rb_rxn) (map (totalZ rb_lv env) (r_args rb_rxn)))%Z.
+Proof. exact reversible_swap_collapse. Qed.
+Print Assumptions C05_reversible_swap_collapse_partial.
 
 (** non-vacuity: A(2 labels) + U(unlabelled) -> B(2 labels), arguments (U, k, A), map [1;0] *)
 Example C05_nonvacuous :
@@ -221,7 +336,7 @@ Example C05_nonvacuous :
   Permutation (r_args nv_rxn) (subs_of (r_stoich nv_rxn) ++ [20%N]) /\
   NoDup (map fst (r_stoich nv_rxn)) /\ NoDup (subs_of (r_stoich nv_rxn)) /\
   (forall a, In a [20%N] -> ~ In a (subs_of (r_stoich nv_rxn)) /\ ~ In a (prods_of (r_stoich nv_rxn)) /\ nlab nv_lv a = 0) /\
-  (exists rxns, create_iso_rxns true nv_lv nv_rxn [1%Z; 0%Z] = Ok rxns /\ length rxns = 4) /\
+  (exists rxns, create_iso_rxns true ReplDict nv_lv nv_rxn [1%Z; 0%Z] = Ok rxns /\ length rxns = 4) /\
   total (labels_per nv_lv (prods_of (r_stoich nv_rxn))) <= length [1%Z; 0%Z].
 Proof. exact dynamics_nonvacuous. Qed.
 Print Assumptions C05_nonvacuous.
